@@ -303,7 +303,11 @@ def _side(t):
     t0 = t
     t = _strip(t)
     if t[0] == 'call' and t[1] in (CHESSMOVE + '::from_square', CHESSMOVE + '::to_square'):
-        who = {('p', 2): 'elem', ('p', 1): 'move'}.get(_strip(t[2][0]))
+        if LOOP_FORM:
+            # the per-candidate body is a loop body of the function itself: the element is what the iteration is at
+            who = 'elem' if is_iteration_element(t[2][0]) else {('p', 1): 'move'}.get(_strip(t[2][0]))
+        else:
+            who = {('p', 2): 'elem', ('p', 1): 'move'}.get(_strip(t[2][0]))
         return (who, 'from' if t[1].endswith('from_square') else 'to') if who else None
     # the mover's piece handed in by the caller (checked at the call sites by piece_param_ok)
     if t[0] == 'p' and t[1] in PIECE_PARAMS:
@@ -338,6 +342,49 @@ def _atom(t):
     if sa and sb and sa[1] == sb[1] and {sa[0], sb[0]} == {'elem', 'move'}:
         return (sa[1], not neg)
     return None
+
+
+LOOP_FORM = []          # non-empty while the body analysed is a `for` loop of get_ambiguous_moves itself (see _side)
+
+
+def loop_filter_table(outs, head, lst):
+    """the same truth table for a body written as `for other in candidates.iter() { if .. { list.push(other.clone()) } }`: one row per
+    way round the loop (back edge), kept = the element is pushed onto the list the function returns"""
+    rows, problems = [], []
+    LOOP_FORM.append(1)
+    try:
+        for o in outs:
+            hs = [e for e in o.events if e[0] == 'loop_head' and e[2] == head]
+            if o.kind == 'abort' or not hs:
+                continue                       # the unwrap of board.get(origin) (an origin square is never empty)
+            if o.kind != 'backedge':
+                continue
+            env = {}
+            for a, v in o.conds[hs[0][4]:]:
+                if a[0] == 'discr' and _strip(a)[0] == 'call' and (_strip(a)[1] == BOARD + '::get' or _strip(a)[1].endswith('::next')):
+                    continue
+                k = _atom(a)
+                if k is None or not (is_true(v) or is_false(v)):
+                    problems.append(show_cond((a, v)))
+                    continue
+                env[k[0]] = (is_true(v) == k[1])
+            pushes = [e for e in o.events if e[0] == 'call' and e[1].endswith('::push')]
+            keep = False
+            if pushes:
+                keep = True if (len(pushes) == 1 and pushes[0][2][0] == ('ref', ('L', 0, lst)) and is_iteration_element(pushes[0][2][1])) else None
+                if keep is None:
+                    problems.append('pushes ' + show(pushes[0][2][1]))
+            rows.append((env, keep))
+    finally:
+        LOOP_FORM.pop()
+    table = {}
+    for f in (False, True):
+        for t in (False, True):
+            for p_ in (False, True):
+                full = {'from': f, 'to': t, 'piece': p_}
+                hits = {keep for env, keep in rows if all(full[k] == v for k, v in env.items())}
+                table[(f, t, p_)] = hits.pop() if len(hits) == 1 else None
+    return table, problems
 
 
 def filter_table(ctx, name, clo_name, snaps):
@@ -449,6 +496,18 @@ def r2_filter(ctx):
                         form = 'filter'
             if form:
                 tables.append((form,) + filter_table(ctx, name, clo[0][1], snaps))
+        elif not clo and o.value is not None and o.value[0] == 'lv':
+            # a plain `for` loop over the candidate list pushing onto a fresh list that is returned
+            head, lst = o.value[1], o.value[2]
+            hs = [e for e in o.events if e[0] == 'loop_head' and e[2] == head]
+            srcs = [sv for h_, sv, _ in iteration_sources(o) if h_ == head]
+            pre = hs[0][3].get(lst) if hs else None
+            fresh = pre is not None and pre[0] == 'call' and pre[1].endswith('::new') and not pre[2]
+            if hs and len(srcs) == 1 and over_list_param(srcs[0]) and fresh:
+                form = 'loop'
+                extra = [x for x, c in zip(extra, [c for c in o.conds if not (c[0][0] == 'discr' and 'get@' in show(c[0]))])
+                         if not (c[0][0] == 'discr' and c[0][1][0] == 'call' and c[0][1][1].endswith('::next') and c[1] == 0)]
+                tables.append((form,) + loop_filter_table(outs, head, lst))
         if extra or not form:
             bad.append({'conds': [show_cond(c) for c in o.conds], 'returns': show(o.value)[:160]})
     ctx.ob(rule, name, 'every return scans all candidate moves with the filter, for every piece kind', len(rets) >= 1 and not bad, found=bad or '%d return path(s)' % len(rets),
